@@ -5,6 +5,7 @@ import (
 	"strings"
 
 	"github.com/vektah/gqlparser/v2/ast"
+	"github.com/vektah/gqlparser/v2/verifhook"
 
 	//nolint:staticcheck // Validator rules each use dot imports for convenience.
 	. "github.com/vektah/gqlparser/v2/validator"
@@ -58,6 +59,7 @@ func retrieveTopFieldNames(selectionSet ast.SelectionSet) []*topField {
 	inFragmentRecursive := map[string]bool{}
 	var walk func(selectionSet ast.SelectionSet)
 	walk = func(selectionSet ast.SelectionSet) {
+		verifhook.Step(verifhook.SiteSubscriptionTopFields)
 		for _, selection := range selectionSet {
 			switch selection := selection.(type) {
 			case *ast.Field:
